@@ -27,6 +27,7 @@
         this document" means the same by identity and by value) — both hold in every reachable state;
     `OkDB db`       every stored document is a Go value (int64 payloads in range): the C12 order laws
                     ("filter then sort = sort then filter", transitivity of key equality) hold there;
+                    kept by every well-formed call (`okDB_step`), so histories need it initially only;
     `QueryOk sch db h q`  the filter evaluates (true/false) on every stored document of the target
                     collection: the implementation scans the SORTED list and stops at the limit, the
                     Spec filters first, so a filter that raises an error on some documents only may
@@ -47,7 +48,7 @@
   bulkWrite (ordered/unordered), createIndex, dropIndex, dropAllIndexes, dropIndexByKey, listIndexes,
   createCollection, dropCollection, dropDatabase, listCollections, listDatabases, expire.
 -/
-import Lungo.Proofs.SeqExpire
+import Lungo.Proofs.SeqOk
 import Lungo.Props.C15
 import Lungo.Props.C07
 namespace Lungo.C01
@@ -254,27 +255,12 @@ theorem handles_distinct_step {s s' : Sys} {c : Call} {oids : List V} {r : Reply
 
 /-! ### assembled -/
 
-/-- well-formedness of a call with respect to the Spec's state `db` -/
-def WF (sch : SchemaEval) (db : SeqDB) (oids : List V) : Call → Prop
-  | .insertOne _ doc => InsertOk [doc] oids
-  | .insertMany _ docs _ => InsertOk docs oids
-  | .find h q _ => h ≠ oplogHandle ∧ QueryOk sch db h q
-  | .findOne h q _ => h ≠ oplogHandle ∧ QueryOk sch db h q
-  | .count h q _ _ => h ≠ oplogHandle ∧ QueryOk sch db h q
-  | .distinct h _ q => h ≠ oplogHandle ∧ QueryOk sch db h q
-  | .estCount h => h ≠ oplogHandle
-  | .listIndexes h => h ≠ oplogHandle
-  | .deleteOne h q => QueryOk sch db h q
-  | .deleteMany h q => QueryOk sch db h q
-  | .findOneAndDelete h q _ _ => QueryOk sch db h q
-  | .updateOne h q u upsert fs => UpdateOk (acOf sch) db h q u upsert fs oids
-  | .updateMany h q u upsert fs => UpdateOk (acOf sch) db h q u upsert fs oids
-  | .findOneAndUpdate h q u _ _ upsert _ fs => UpdateOk (acOf sch) db h q u upsert fs oids
-  | .replaceOne h q repl upsert => ReplaceOk (acOf sch) db h q repl upsert oids
-  | .findOneAndReplace h q repl _ _ upsert _ => ReplaceOk (acOf sch) db h q repl upsert oids
-  | .bulkWrite h models ordered => BulkCallOk (acOf sch) db h ordered oids models
-  | .expire nowMs => TtlOk sch nowMs db.colls
-  | _ => True
+/-- the Spec keeps "every stored document is a Go value" under well-formed calls (`WF`, defined in
+    Proofs/SeqOk.lean: per call `InsertOk` / `QueryOk` / `UpdateOk` / `ReplaceOk` / `BulkCallOk` / `TtlOk`,
+    and "not `local.oplog`" for reads) -/
+theorem okDB_step {db db' : SeqDB} {c : Call} {oids : List V} {r : Reply} (ok : OkDB db)
+    (hw : WF sch db oids c) (e : Spec.step sch db c oids = .ok (db', r)) : OkDB db' :=
+  SeqRef.okDB_step ok hw e
 
 /-- **api_refines**: in a state satisfying the C15 invariant and C07, with pairwise distinct
     handles, whose documents are Go values, every well-formed call — all 27 of them — returns under
@@ -327,18 +313,17 @@ def sysReplies (sch : SchemaEval) : Sys → List (Call × List V) → List (Res 
     | .ok (s', rep) => .ok rep :: sysReplies sch s' r
     | .error e => .error e :: sysReplies sch s r
 
-/-- along the history, judged on the SPEC's states: every call is well-formed, every stored
-    document is a Go value -/
+/-- along the history, judged on the SPEC's states: every call is well-formed -/
 def RunOk (sch : SchemaEval) : SeqDB → List (Call × List V) → Prop
   | _, [] => True
   | db, co :: r =>
-    OkDB db ∧ WF sch db co.2 co.1 ∧
+    WF sch db co.2 co.1 ∧
       RunOk sch (match Spec.step sch db co.1 co.2 with
         | .ok (db', _) => db'
         | .error _ => db) r
 
 theorem api_refines_run_from {s : Sys} (hi : SysInv sch s) (hu : UniqueOkCat sch s.catalog)
-    (hh : HD s.catalog) :
+    (hh : HD s.catalog) (ok : OkDB (abs s.catalog)) :
     ∀ (calls : List (Call × List V)), RunOk sch (abs s.catalog) calls →
       sysReplies sch s calls = Spec.replies sch (abs s.catalog) calls ∧
       abs (Sys.run sch s calls).catalog = Spec.run sch (abs s.catalog) calls := by
@@ -347,7 +332,7 @@ theorem api_refines_run_from {s : Sys} (hi : SysInv sch s) (hu : UniqueOkCat sch
   | nil => intro _; exact ⟨rfl, rfl⟩
   | cons co r ih =>
     intro hr
-    obtain ⟨ok, hw, hrest⟩ := hr
+    obtain ⟨hw, hrest⟩ := hr
     have hstep := api_refines hi hu hh ok hw
     simp only [sysReplies, Spec.replies, Sys.run, Spec.run, List.foldl_cons]
     cases hs : Sys.step sch s co.1 co.2 with
@@ -356,7 +341,7 @@ theorem api_refines_run_from {s : Sys} (hi : SysInv sch s) (hu : UniqueOkCat sch
       simp only [Except.map] at hstep
       rw [hstep] at hrest ⊢
       simp only at hrest ⊢
-      obtain ⟨h1, h2⟩ := ih hi hu hh hrest
+      obtain ⟨h1, h2⟩ := ih hi hu hh ok hrest
       exact ⟨by rw [h1], h2⟩
     | ok p =>
       obtain ⟨s', rep⟩ := p
@@ -365,7 +350,7 @@ theorem api_refines_run_from {s : Sys} (hi : SysInv sch s) (hu : UniqueOkCat sch
       rw [hstep] at hrest ⊢
       simp only at hrest ⊢
       obtain ⟨hi', hu'⟩ := C07.unique_step hi hu hs
-      obtain ⟨h1, h2⟩ := ih hi' hu' (hh.step hs) hrest
+      obtain ⟨h1, h2⟩ := ih hi' hu' (hh.step hs) (okDB_step ok hw hstep) hrest
       exact ⟨by rw [h1], h2⟩
 
 /-- **api_refines_run**: for every history of well-formed calls from the empty database,
@@ -377,7 +362,10 @@ theorem api_refines_run (calls : List (Call × List V)) (hr : RunOk sch SeqDB.in
   have hu : UniqueOkCat sch Sys.init.catalog := by
     have := C07.uniqueOk_run (sch := sch) []
     simpa [Sys.run] using this
-  have := api_refines_run_from (sch := sch) C15.inv_init hu HD.init calls (by rw [abs_init]; exact hr)
+  have ok0 : OkDB (abs Sys.init.catalog) := by
+    rw [abs_init]; intro h c hm d hd
+    simp [SeqDB.init] at hm; obtain ⟨_, rfl⟩ := hm; cases hd
+  have := api_refines_run_from (sch := sch) C15.inv_init hu HD.init ok0 calls (by rw [abs_init]; exact hr)
   rw [abs_init] at this
   exact this
 
@@ -410,10 +398,13 @@ example : Spec.step sch (abs Sys.init.catalog) (.insertOne demoH [("a", .i32 1)]
   == [("oplog", 0, []), ("c", 2, ["_id_"]), ("e", 0, ["_id_"])]
 
 /-
-  What remains an INPUT CONDITION rather than a theorem: `OkDB` along a history (`RunOk`) and the
-  `DocOk` clauses of `UpdateOk`/`ReplaceOk` — they would follow from "`Apply`, `Put` and `Extract` map
-  Go values to Go values" (int64 payloads stay in range), a statement about the operator semantics
-  (C11's subject) that is not proved anywhere yet. `insert` of Go values keeps `OkDB` (`genId_ok`).
+  `OkDB` is NOT an assumption along a history: the initial database is empty and `okDB_step` carries
+  it through every well-formed call. What remains an INPUT CONDITION rather than a theorem are the
+  `DocOk` clauses inside `WF`: the inserted documents / replacement / generated ids are Go values
+  (true of every Go value the driver can be handed), and — `ApplyOkOn`, `UpsertOk` — the results of
+  `Apply` (on stored documents, on the upsert seed) are Go values. The latter would follow from
+  "`Apply` and `Extract` map Go values to Go values" (int64 payloads stay in range), a statement about
+  the operator semantics (C11's subject) that is not proved anywhere yet.
 -/
 
 end Lungo.C01
